@@ -192,6 +192,29 @@ func (w *World) logf(format string, args ...any) {
 	}
 }
 
+// Race self-test (bin/check selftest-race): with VS_PLANT_RACE=race every
+// emulator goroutine increments an unsynchronised global at each yield point;
+// although the scheduler lets only one of them run at a time, the race
+// detector has to report it (the scheduler's hand-offs must be invisible to it).
+// With VS_PLANT_RACE=guarded the same global is protected by a mutex and
+// nothing may be reported.
+var (
+	plantMode     = os.Getenv("VS_PLANT_RACE")
+	plantedGlobal int
+	plantedMu     sync.Mutex
+)
+
+func plantedAccess() {
+	switch plantMode {
+	case "race":
+		plantedGlobal++
+	case "guarded":
+		plantedMu.Lock()
+		plantedGlobal++
+		plantedMu.Unlock()
+	}
+}
+
 // Now is the simulated time since the start of the run.
 func (w *World) Now() time.Duration { return time.Since(w.epoch) }
 
@@ -311,7 +334,7 @@ func (w *World) run(mk func(*Plan) Checker) {
 	rand.Seed(w.plan.Knobs.RandSeed)
 	s := w.sched
 	redisemu.SimInstall(&redisemu.SimHooks{
-		Yield:       func(site string) { s.park(nil, site) },
+		Yield:       func(site string) { plantedAccess(); s.park(nil, site) },
 		BeforeLock:  func(mu *sync.Mutex, site string) { s.park(mu, site) },
 		AfterUnlock: s.afterUnlock,
 		TaskBegin:   s.taskBegin,
